@@ -559,6 +559,27 @@ func c16Range(c *core.Ctx, pkg *packages.Package) {
 			}
 			return true
 		})
+		// the first tick is computed from the start in local time (the zone the live cron ticker evaluates in)
+		startP := an.ParamName(fn.Decl.Type, 0)
+		initOK := false
+		ast.Inspect(fn.Decl.Body, func(n ast.Node) bool {
+			if as, ok := n.(*ast.AssignStmt); ok && as.Tok == token.DEFINE && len(as.Lhs) == 1 && len(as.Rhs) == 1 {
+				if types.ExprString(as.Rhs[0]) == startP+".Local()" {
+					// …and that variable is what ticker.Next advances
+					v := types.ExprString(as.Lhs[0])
+					ast.Inspect(fn.Decl.Body, func(m ast.Node) bool {
+						if call, ok := m.(*ast.CallExpr); ok && len(call.Args) == 1 && types.ExprString(call.Args[0]) == v {
+							if f := core.Callee(info, call); f != nil && f.Name() == "Next" {
+								initOK = true
+							}
+						}
+						return true
+					})
+				}
+			}
+			return true
+		})
+		c.Check(initOK, "C16.bound", "QueryNode.Queries#local-start", fn.Decl.Pos(), "the time the ticker is advanced from must start as %s.Local(): cron expressions are evaluated in the location of the time they are given, and the live ticker gives them time.Now() (local); a start carrying another zone makes the historical list differ from the live ticks", startP)
 		c.Check(br == 2 && cont == 0, "C16.bound", "QueryNode.Queries#exits", fn.Decl.Pos(), "the loop of Queries must have exactly its two bounds as exits and skip nothing (break %d, continue/goto %d)", br, cont)
 		c.Check(zeroStop, "C16.bound", "QueryNode.Queries#zero-stop", fn.Decl.Pos(), "a zero stop must default to now")
 	}
